@@ -28,6 +28,9 @@ pub mod state;
 pub mod tests;
 #[doc(hidden)]
 pub mod util;
+#[cfg(feature = "verif")]
+#[doc(hidden)]
+pub mod verif_trace;
 
 use crate::state::{
     ConfigFeatureFlag, LockType, OpenPositionBumps, OpenPositionWithMetadataBumps,
